@@ -97,7 +97,10 @@ class GCWorld(gen.World):
         body = image_manifest(desc(MT_CFG if subject is None else MT_EMPTY, cfg),
                               [desc(MT_LAYER if rng.random() < 0.8 else rng.choice([gen.FOREIGN, "application/vnd.docker.image.rootfs.foreign.diff.tar.gzip"]), l) for l in layers],
                               subject=sd, artifact_type=artifact_type, annotations={"n": str(len(self.steps))}, extra=extra)
-        return self.push(repo, body, MT_OCI_M, refs, subject=subject, tag=tag, kind="image")
+        d = self.push(repo, body, MT_OCI_M, refs, subject=subject, tag=tag, kind="image")
+        if extra:
+            self.g[repo].man[d]["kids"] = kids
+        return d
 
     def index(self, repo, children, tag=None, subject=None):
         g = self.g[repo]
